@@ -152,6 +152,7 @@ func (c RawConfiguration) handleCorrectableCall(ctx context.Context, corr *Corre
 		clevel  = LevelNotSet
 		quorum  bool
 		replies = make(map[uint32]protoreflect.ProtoMessage)
+		failed  = make(map[uint32]bool)
 	)
 
 	if state.data.ServerStream {
@@ -189,7 +190,12 @@ func (c RawConfiguration) handleCorrectableCall(ctx context.Context, corr *Corre
 		select {
 		case r := <-state.replyChan:
 			if r.err != nil {
-				errs = append(errs, nodeError{nodeID: r.nid, cause: r.err})
+				// The router of a streaming call stays registered after a failure, so a node
+				// whose stream fails again reports again; each failing node counts once.
+				if !failed[r.nid] {
+					failed[r.nid] = true
+					errs = append(errs, nodeError{nodeID: r.nid, cause: r.err})
+				}
 				break
 			}
 			replies[r.nid] = r.msg
